@@ -28,17 +28,20 @@ Theorem C19_from_cold : forall (LM : Type) truth (lm_rt : LM -> LM), (forall lm,
   (forall f, Forall (fun h => ~ In CR h) (snd (truth f))) ->
   forall js, run LM truth lm_rt false (mkCS LM (fun _ => None) (fun _ => None)) js = map (fresh LM truth) js.
 Proof. exact from_cold. Qed.
+Print Assumptions C19_from_cold.
 
 Theorem C19_repeat : forall (LM : Type) truth (lm_rt : LM -> LM), (forall lm, lm_rt lm = lm) ->
   (forall f, Forall (fun h => ~ In CR h) (snd (truth f))) -> forall j s, Inv LM truth s ->
   let (s1, o1) := step LM truth lm_rt false s j in let (s2, o2) := step LM truth lm_rt false s1 j in o1 = o2.
 Proof. exact repeatable. Qed.
+Print Assumptions C19_repeat.
 
 (** D10 (fixed in /repo): with ","-join a header starting with a quote, containing a newline, or the single header "" does not survive *)
 Theorem C19_header_cache_refuted :
   decode (encode true [[34; 113]; [97]]) <> [[34; 113]; [97]] /\ decode (encode true [[]]) <> [[]] /\
   decode (encode true [[97; 10; 98]]) <> [[97; 10; 98]] /\ decode (encode false [[34; 113]; [97]]) = [[34; 113]; [97]].
 Proof. exact header_cache_refuted. Qed.
+Print Assumptions C19_header_cache_refuted.
 
 Example C19_nonvacuous :
   let truth := fun f : Z => (f, [[34; 113]; [97; 44]; []]) in
